@@ -5,7 +5,7 @@
 # then the worktree is removed.  One line per seeded change; the table is written to seeded/MATRIX.md.
 cd "$(dirname "$0")/.."
 ids=${*:-$(ls seeded | grep -v MATRIX)}
-out=seeded/MATRIX.md
+out=${MATRIX_OUT:-seeded/MATRIX.md}
 tmp=/tmp/seedmatrix.$$
 {
 echo "| seeded change | property | tests with the change | demonstration (clean / changed) | checks that report it |"
@@ -14,9 +14,9 @@ echo "|---|---|---|---|---|"
 for id in $ids; do
   d=seeded/$id
   [ -f $d/patch.diff ] || continue
-  # the demonstrations of rounds 2 and 3 assert that coco is imported from the worktree they were written in
+  # most demonstrations assert that coco is imported from the worktree they were written in
   prop0=${id%-*}; letter=${id#*-}
-  case $letter in C|D|E) wt=/tmp/seed2/$prop0 ;; F|G) wt=/tmp/seed3/$prop0 ;; *) wt=/tmp/seedwt_$id ;; esac
+  case $letter in A|B) wt=/tmp/seed/$prop0 ;; C|D|E) wt=/tmp/seed2/$prop0 ;; F|G) wt=/tmp/seed3/$prop0 ;; *) wt=/tmp/seedwt_$id ;; esac
   mkdir -p $(dirname $wt)
   git -C /repo worktree add --detach $wt HEAD >/dev/null 2>&1 || { echo "$id: cannot create worktree"; continue; }
   prop=$(/venv/bin/python -c "import json;print(json.load(open('$d/meta.json'))['property'])")
